@@ -137,4 +137,137 @@ def run (x : Lru) : List Op → Lru × List Out
     (x'', o :: os)
 
 end Lru
+
+/-! ## The larger alphabet: every command of `Memory` that is built from `_get`, `_set`, `_delete`
+
+`Memory` has more commands than the regular ones of `Op`: `set_lock` (inherited: `set(exist=False)`; reached by
+`lock()`, `@locked`, transactions), `is_locked`, `unlock`, `set_add`, `set_remove`, `set_pop`, `slice_incr`,
+`incr_bits`, `get_bits`, `get_raw`, `get_match`, `delete_match`.  Each of them touches the store ONLY through the
+three primitives `_get` (memory.py:205), `_set` (memory.py:188, the one place where the store is trimmed) and
+`_delete` / `del self.store[key]`.  So:
+
+* `Prog` — a command as an *adaptive program over the primitives*: what it does next may depend on what the reads
+  and deletes answered.  The theorems of C11 hold for histories of ARBITRARY such programs
+  (Lemmas/LruX.lean: every `Closed` predicate survives `exec`), not just for the commands listed here.
+* `XOp` / `XOp.prog` — the commands of `Memory` written out as such programs, the Python next to each.
+  **Creating writes** (capacity clause): every `.set` node - `set_lock`, `set_add`, `set_remove`, `set_pop`
+  (they create the entry, possibly an empty set), `slice_incr`, `incr_bits`.  **Uses** (recency clause), mirrored
+  from the code: every `.get` node that finds a live entry (`move_to_end`) - `is_locked`, the read of `unlock`
+  (also when the token does not match), `get_bits`, every key `get_match` yields, the read that opens each of the
+  writes above - and every `.set` node.  **Not uses**: `get_raw` (`self.store.get`), `get_expire`, `get_size`,
+  `scan` and the deletes of `delete_match` / `unlock`.
+  A command that writes the store some other way (`set_raw`: `self.store[key] = (None, value)`, no `move_to_end`,
+  no trimming) is NOT a `Prog` and is outside every theorem.
+-/
+
+inductive Prog where
+  | ret (o : Out)
+  | get (k : Key) (cont : Option Val → Prog)                    -- `await self._get(k, default=...)`
+  | set (k : Key) (v : Val) (ttl : Option Nat) (cont : Prog)    -- `self._set(k, v, ttl)`
+  | del (k : Key) (cont : Bool → Prog)                          -- `await self._delete(k)` / `del self.store[k]`
+
+inductive XOp where
+  | reg (op : Op)                                   -- the regular commands, time, purge sweeps (`Lru.step`)
+  | setLock (k : Key) (v : Val) (ttl : Option Nat)
+  | isLocked (k : Key)
+  | unlock (k : Key) (v : Val)
+  | setAdd (k : Key) (ttl : Option Nat)             -- the members are opaque here (values are never compared)
+  | setRemove (k : Key)
+  | setPop (k : Key)
+  | sliceIncr (k : Key) (ttl : Option Nat)
+  | incrBits (k : Key)
+  | getBits (k : Key)
+  | getRaw (k : Key)
+  | getMatch                                        -- `get_match("*")`
+  | delMatch                                        -- `delete_match("*")`
+
+def XOp.reg? : XOp → Option Op
+  | .reg op => some op
+  | _ => none
+
+/-- the keys `scan` yields: entries whose deadline has not passed, in store order (it does not touch the store) -/
+def Mem.scanKeys (s : Mem) : List Key := keys (s.store.filter (fun p => p.2.live s.now))
+
+/-- the program of a command, in the state `s` in which it starts (only `set_add`, which looks at the stored
+deadline, and the two `*_match` commands, which iterate a snapshot of the store, depend on it) -/
+def XOp.prog (s : Mem) : XOp → Prog
+  | .reg _ => .ret .unit
+  -- `return await self.set(key, value, expire=expire, exist=False)`
+  | .setLock k v ttl => .get k fun r => if r.isSome then .ret (.bool false) else .set k v ttl (.ret (.bool true))
+  -- `return await self._key_exist(key)`
+  | .isLocked k => .get k fun r => .ret (.bool r.isSome)
+  -- `if await self._get(key, default=_missed) != value: return False` / `return await self._delete(key)`
+  | .unlock k v => .get k fun r => if r = some v then .del k (fun b => .ret (.bool b)) else .ret (.bool false)
+  -- `val = await self._get(key, default=set()); val.update(values)`
+  -- `if key in self.store:` (it is iff the read found it live)
+  -- `    if expire_at is None or not expire: del self.store[key]; expire = None`
+  -- `    else: expire = max(expire, expire_at - time.time())`
+  -- `self._set(key, val, expire=expire)`
+  | .setAdd k ttl => .get k fun r =>
+    match r with
+    | none => .set k (.keys []) ttl (.ret .unit)
+    | some v =>
+      match (lookup s.store k).bind (·.dl), ttl with
+      | some d, some (t + 1) => .set k v (some (max (t + 1) (d - s.now))) (.ret .unit)
+      | _, _ => .del k fun _ => .set k v none (.ret .unit)
+  -- `val = await self._get(key, default=set()); ...; self._set(key, val)`
+  | .setRemove k => .get k fun r => .set k (r.getD (.keys [])) none (.ret .unit)
+  | .setPop k => .get k fun r => .set k (r.getD (.keys [])) none (.ret .unit)
+  -- `val_list = await self._get(key); ...; self._set(key, new_val, expire=expire)`
+  | .sliceIncr k ttl => .get k fun r => .set k (r.getD (.nums [])) ttl (.ret .unit)
+  -- `array = await self._get(key, default=Bitarray("0")); ...; self._set(key, array)`
+  | .incrBits k => .get k fun r => .set k (r.getD .nil) none (.ret .unit)
+  -- `array = await self._get(key, default=Bitarray("0"))`
+  | .getBits k => .get k fun _ => .ret .unit
+  -- `val = self.store.get(key)`
+  | .getRaw _ => .ret .unit
+  -- `async for key in self.scan(pattern): value = await self.get(key)`
+  | .getMatch => s.scanKeys.foldr (fun k p => .get k fun _ => p) (.ret .unit)
+  -- `async for key in self.scan(pattern): await self._delete(key)`
+  | .delMatch => s.scanKeys.foldr (fun k p => .del k fun _ => p) (.ret .unit)
+
+namespace Mem
+
+def exec (s : Mem) : Prog → Mem × Out
+  | .ret o => (s, o)
+  | .get k c => exec (s.rawGet k).1 (c (s.rawGet k).2)
+  | .set k v ttl c => exec (s.rawSet k v ttl) c
+  | .del k c => exec (s.rawDelete k).1 (c (s.rawDelete k).2)
+
+def xstep (s : Mem) (op : XOp) : Mem × Out :=
+  match op.reg? with
+  | some o => s.step o
+  | none => s.exec (XOp.prog s op)
+
+def xrun (s : Mem) : List XOp → Mem × List Out
+  | [] => (s, [])
+  | op :: ops =>
+    let (s', o) := s.xstep op
+    let (s'', os) := xrun s' ops
+    (s'', o :: os)
+
+end Mem
+
+namespace Lru
+
+/-- a program on the instrumented state: each primitive is its ghost-carrying twin -/
+def exec (x : Lru) : Prog → Lru × Out
+  | .ret o => (x, o)
+  | .get k c => exec (x.gGet k).1 (c (x.gGet k).2)
+  | .set k v ttl c => exec (x.gSet k v ttl) c
+  | .del k c => exec (x.gDelete k).1 (c (x.gDelete k).2)
+
+def xstep (x : Lru) (op : XOp) : Lru × Out :=
+  match op.reg? with
+  | some o => x.step o
+  | none => x.exec (XOp.prog x.mem op)
+
+def xrun (x : Lru) : List XOp → Lru × List Out
+  | [] => (x, [])
+  | op :: ops =>
+    let (x', o) := x.xstep op
+    let (x'', os) := xrun x' ops
+    (x'', o :: os)
+
+end Lru
 end CashewsVerif
